@@ -166,7 +166,7 @@ LIFE_TB = TB + ("Lifecycle.v models Start/Stop/Restart, the accept loops, the co
                 "whose schedules are arbitrary label lists; its executable scheduler (life_model, extracted) is compared with a real server over loopback sockets. ")
 claim("C15",
       "Theorems, for every schedule (any interleaving of API steps, accept-loop steps, connection-goroutine steps and client arrivals, any length, any number of clients): an inductive "
-      "invariant (20 clauses: WaitGroup counters = live goroutines, registry = registered connections, listener fields point to open listeners owned by live accept loops, ...) holds in "
+      "invariant (21 clauses: WaitGroup counters = live goroutines, registry = registered connections, every unfinished connection goroutine has its socket in the live set, listener fields point to open listeners owned by live accept loops, ...) holds in "
       "every reachable state; hence while running every enabled port has an open listener with a live accept loop that accepts an arriving client; at the moment Stop returns no "
       "listener is open, the registry is empty, every accept loop and connection goroutine has returned with its socket closed; outside Stop's close phase the registry is exactly "
       "the connections between registration and deregistration; Stop terminates (C15_stop_terminates: a measure every enabled step decreases, progress, closed sockets). Correspondence: every legal Start/Stop/Restart sequence up to length 4 (6 thorough) x {plain, TLS, both ports} with "
@@ -174,7 +174,7 @@ claim("C15",
       "registry / goroutine baseline are checked on the real server.",
       LIFE_TB + "Partial: the interleavings explored on the implementation are those the Go scheduler produces (no forced schedule points); kernel listen backlog and TIME_WAIT are outside the model; "
       "Stop's termination is proved on the model (every execution after the listeners are closed is bounded by a measure, is never stuck before Stop returns, and waits only on closed sockets), "
-      "with 'close every registered and tracked socket' as one atomic step and 'a closed socket ends its goroutine's read' assumed of the Go runtime; one forced schedule (stoprace) ties that step to the code.",
+      "with Stop's two snapshots (registry, then live set) as two atomic steps and 'a closed socket ends its goroutine's read' assumed of the Go runtime; one forced schedule (stoprace) ties that step to the code.",
       "Coq inductive invariant over all schedules of a lifecycle transition system + model-vs-server runs of lifecycle sequences")
 claim("C19",
       "Theorems: for EVERY input byte string, handler and admission outcome the connection trace registers once first (iff admitted), deregisters and closes exactly once last, and touches "
